@@ -50,7 +50,7 @@ AL = np.array([[-1.7, -1.0, 0.0, 0.45, 1.0, 2.2], [1.3, -0.6, 1.0, -2.5, 0.0, 0.
 
 def plan(tier, seed):
     if tier == "quick":
-        graphs = [({"Cfgs": '{"np64","np32","jax64","pt64","pt32","tf64","np64m"}', "Kinds": '{"model","interp"}', "MaxObjs": "2", "MaxSwitches": "2", "InitCfg": '"np64"'}, 64)]
+        graphs = [({"Cfgs": '{"np64","np32","jax64","pt64","tf64","np64m"}', "Kinds": '{"model","interp","batched"}', "MaxObjs": "2", "MaxSwitches": "2", "InitCfg": '"np64"'}, 64)]
     else:
         graphs = [({"Cfgs": '{"np64","np32","jax64","jax32","pt64","pt32","tf64","tf32","np64m","pt64m"}', "Kinds": '{"model","interp","batched","viewer"}', "MaxObjs": "2",
                    "MaxSwitches": "2", "InitCfg": '"np64"'}, 160),
